@@ -3,7 +3,7 @@ from vlib.props._packet import packet_obs
 
 
 def obligations(tier, seed):
-    H = dict(harness="h_c03.c", units=["src/hamm.c"], vin_size=64)
+    H = dict(harness="h_c03.c", units=["src/hamm.c"], vin_size=64, flags=["--no-undefined-shift-check"])
     prim = [
         Ob("ham8", func="h_ham8", unwind=20, desc="Hamming 8/4: library encoder/decoder == reference from the parity equations for all 256 bytes; every single error corrected, every double error rejected",
            encodes=["vbi_ham8", "vbi_unham8"], bounds="none (exhaustive by solver)", timeout=120, **H),
